@@ -44,7 +44,8 @@ Verdicts:
 Quick tier: all 32 bits of every field of NFULL small files (the smallest
 without a block, with one block, with several blocks), a seeded sample of
 NSAMPLE = 4 bits of every field of the others and one compensated flip per
-file.  Thorough: every bit of every field, every compensated flip.  The quick
+file.  Thorough: every bit of every field, THOROUGH_COMP seeded compensated
+flips per block field.  The quick
 tier is sized by the cost of starting the real program (see NFULL below).
 
 Use:  run(ck) from a property check, or standalone
@@ -74,6 +75,7 @@ NFULL = 3           # quick: files whose fields get all 32 bits (full_set)
 NSAMPLE = 4         # quick: bits per field of the other files (>= 4)
 NSAMPLE_COMP = 1    # quick: compensated flips per file, the other files
 NFULL_COMP = 4      # quick: compensated flips per block field, NFULL files
+THOROUGH_COMP = 8   # thorough: compensated flips per block field
 REAL_WORKERS = 3    # see above
 MAXMSG = 8
 MAXVIOL = 8
@@ -193,8 +195,9 @@ def plan_flips(rng, quick, full, blocks, streams, per):
         for b in range(32):
             v = (31 - b + rot) % 32   # value bit of the combined CRC
             comp.append(('block+', i, b, (pos + b, streams[s] + 31 - v)))
-    if quick and comp:
-        k = NFULL_COMP * len(blocks) if full else NSAMPLE_COMP
+    if comp:
+        k = THOROUGH_COMP * len(blocks) if not quick else \
+            NFULL_COMP * len(blocks) if full else NSAMPLE_COMP
         comp = [comp[i] for i in sorted(rng.sample(range(len(comp)),
                                                    min(k, len(comp))))]
     return out + comp
